@@ -467,3 +467,27 @@
        (and (avlT (i_left t)) (avlT (i_right t)) (<= (- 1) (balf t)) (<= (balf t) 1))
        true))
 ;@specfn avlT : T -> Bool
+; outcome of the last call of nodeDB.shouldForceFastStorageUpgrade (ghost; its label parsing — strings.Split, strconv — is outside the translated subset)
+;@ghost forceflag Bool
+; call counters (ghost): number of calls of extractStateChanges / of nodeDB.SaveNode so far
+;@ghost nextracts Int
+;@ghost nsaves Int
+; ---- decimal labels (C07): the text of a string is named by (ord, len); splitting and decimal
+; rendering are uninterpreted, constrained only by what the decision needs
+; splitcnt/splitord/splitlen: number of pieces of strings.Split(s, sep) and the text of piece i
+(declare-fun splitcnt (Int Int Int Int) Int)
+;@specfn splitcnt : Int Int Int Int -> Int
+(declare-fun splitord (Int Int Int Int Int) Int)
+;@specfn splitord : Int Int Int Int Int -> Int
+(declare-fun splitlen (Int Int Int Int Int) Int)
+;@specfn splitlen : Int Int Int Int Int -> Int
+; itoaord/itoalen: the text of strconv.Itoa(i); distinct integers have distinct texts
+(declare-fun itoaord (Int) Int)
+;@specfn itoaord : Int -> Int
+(declare-fun itoalen (Int) Int)
+;@specfn itoalen : Int -> Int
+(assert (forall ((i Int) (j Int)) (! (=> (and (= (itoaord i) (itoaord j)) (= (itoalen i) (itoalen j))) (= i j)) :pattern ((itoaord i) (itoaord j)))))
+; labelstale(lo, ll, dash, latest): the label (text lo/ll) has the form <format>-<version> and its
+; version text is not the decimal text of latest
+(define-fun labelstale ((lo Int) (ll Int) (dash Int) (latest Int)) Bool (and (= (splitcnt lo ll dash 1) 2) (not (and (= (splitord lo ll dash 1 1) (itoaord latest)) (= (splitlen lo ll dash 1 1) (itoalen latest))))))
+;@specfn labelstale : Int Int Int Int -> Bool
